@@ -32,6 +32,8 @@ fn cat(a: &[char], b: &[char]) -> Vec<char> {
     v
 }
 
+const ASCII_EDGES: &[char] = &['a', 'z', 'A', 'Z', '@', '[', '`', '{', '0', '9'];
+
 fn matcher_domains(id: &str, thorough: bool) -> Vec<Domain> {
     let cfgs = match id {
         "C03" | "C04" => Cfg::all_no_prefix(),
@@ -59,7 +61,8 @@ fn matcher_domains(id: &str, thorough: bool) -> Vec<Domain> {
             Domain::new("mixed6", &mixed6, 5, 3, cfgs.clone()),
             // deep and narrow: two letters, a camel hump and a delimiter; ties between continuing a
             // run and starting one after a gap need four needle characters and seven columns
-            Domain::new("camel4", &['a', 'b', 'A', '_'], 7, 4, cfgs),
+            Domain::new("camel4", &['a', 'b', 'A', '_'], 7, 4, cfgs.clone()),
+            Domain::new("ascii-edges", ASCII_EDGES, 4, 2, cfgs),
         ],
         ("C04", true) => vec![
             Domain::new("ascii5", ASCII5, 8, 3, cfgs.clone()),
@@ -67,14 +70,17 @@ fn matcher_domains(id: &str, thorough: bool) -> Vec<Domain> {
             Domain::new("mixed8", &mixed8, 5, 4, cfgs.clone()),
             Domain::new("full16", &full16, 4, 2, cfgs.clone()),
             Domain::new("camel4", &['a', 'b', 'A', '_'], 9, 4, cfgs.clone()),
-            Domain::new("camel5-digit", &['a', 'b', 'A', '_', '1'], 7, 4, cfgs),
+            Domain::new("camel5-digit", &['a', 'b', 'A', '_', '1'], 7, 4, cfgs.clone()),
+            Domain::new("ascii-edges", ASCII_EDGES, 5, 3, cfgs),
         ],
         (_, false) => vec![
             Domain::new("ascii7", ASCII7, 5, 3, cfgs.clone()),
             Domain::new("mixed8", &mixed8, 4, 3, cfgs.clone()),
             Domain::new("fold-to-ascii", &fold_ascii, 4, 2, cfgs.clone()),
             Domain::new("full16", &full16, 3, 2, cfgs.clone()),
-            Domain::new("signature-classes", &sig_alpha, 3, 2, cfgs),
+            Domain::new("signature-classes", &sig_alpha, 3, 2, cfgs.clone()),
+            // first / last letter and digit of each ASCII range and the characters next to them
+            Domain::new("ascii-edges", ASCII_EDGES, 4, 2, cfgs),
         ],
         (_, true) => vec![
             Domain::new("ascii7-h6", ASCII7, 6, 3, cfgs.clone()),
@@ -85,7 +91,8 @@ fn matcher_domains(id: &str, thorough: bool) -> Vec<Domain> {
             Domain::new("fold-to-ascii", &fold_ascii, 6, 3, cfgs.clone()),
             Domain::new("full16", &full16, 4, 2, cfgs.clone()),
             Domain::new("signature-classes", &sig_alpha, 3, 2, cfgs.clone()),
-            Domain::new("signature-classes-n3", &sig_alpha, 2, 3, cfgs),
+            Domain::new("signature-classes-n3", &sig_alpha, 2, 3, cfgs.clone()),
+            Domain::new("ascii-edges", ASCII_EDGES, 5, 3, cfgs),
         ],
     }
 }
